@@ -182,7 +182,7 @@ pub fn drive(d: &mut Driver)
 	d.phase("module histories", jobs);
 	// (f) function bodies of the statement-level spaces (labels and gotos, variables, placement of
 	// loop and if branches): each is compiled through the complete pipeline
-	let (n4, n5, n6) = if quick { (5usize, 4usize, 5usize) } else { (6, 5, 6) };
+	let (n4, n5, n6) = if quick { (5usize, 5usize, 5usize) } else { (6, 6, 6) };
 	let mut jobs = Vec::new();
 	let space4 = crate::spaces::body::BodySpace::new(crate::checks::c04::ATOMS);
 	for n in 0..=n4
